@@ -81,7 +81,7 @@ def featurize(scn, res, v):
 def run(pid, tier, seed, replay):
     chk = framework.Check(pid, tier, seed)
     if replay:
-        rc = ec.replay_file(chk, replay)
+        rc = ec.replay_file(chk, replay, featurize=featurize)
         chk.finish()
         return rc
     rng = random.Random(11000 + seed)
